@@ -82,8 +82,8 @@ def parse_trace(text):
             cur['ret'] = line[4:]
     return calls
 
-def run_c(k2, dbdir, opts, ops, timeout=600):
-    if os.path.exists(dbdir):
+def run_c(k2, dbdir, opts, ops, timeout=600, keep=False):
+    if os.path.exists(dbdir) and not keep:
         shutil.rmtree(dbdir)
     args = [k2, dbdir] + ['%s=%s' % kv for kv in sorted(opts.items())]
     r = subprocess.run(args, input=('\n'.join(ops) + '\n').encode(), capture_output=True, timeout=timeout)
